@@ -160,6 +160,53 @@ Theorem C14_hashed_judge_sound : forall ps fl err hs,
 Proof. exact hashed_ok_r_sound. Qed.
 Print Assumptions C14_hashed_judge_sound.
 
+(* ---- several deliveries on ONE long-lived Executor (round 5): for ALL histories of deliveries - any
+   order of deposit nonces inside a delivery (C14_batches_partition above has no sortedness hypothesis: the
+   batches keep the DELIVERY's order), any source domains, any chain answers per delivery, any failing
+   lookups - every delivery gets the batches it would get alone ... *)
+Theorem C14_history_independent : forall cap tg pre d post,
+  nth_error (run_history cap tg (pre ++ d :: post)) (List.length pre) = Some (batches_r cap tg (fst d) (snd d)).
+Proof. exact run_history_independent. Qed.
+Print Assumptions C14_history_independent.
+
+(* ... so whatever was delivered or found executed before, the batches returned for a delivery partition
+   ITS pending proposals in ITS order *)
+Theorem C14_history_partition : forall cap tg ds i d bs,
+  nth_error ds i = Some d -> nth_error (run_history cap tg ds) i = Some (Some bs) ->
+  List.concat (map members bs) = pending (fst d).
+Proof. exact run_history_partition. Qed.
+Print Assumptions C14_history_partition.
+
+(* the judge of a history judges every delivery on its own with the judge of a single delivery
+   (C14_lookup_judge_sound says what that accepts); it accepts the model on every history *)
+Theorem C14_history_judge_accepts_model : forall cap tg ds,
+  history_ok cap tg ds (map (option_map (map obs_of)) (run_history cap tg ds)) = true.
+Proof. exact history_ok_model. Qed.
+Print Assumptions C14_history_judge_accepts_model.
+
+Theorem C14_history_judge_sound : forall cap tg ds rs,
+  history_ok cap tg ds rs = true ->
+  List.length rs = List.length ds /\
+  forall i d r, nth_error ds i = Some d -> nth_error rs i = Some r -> spec_ok_r cap tg (fst d) (snd d) r = true.
+Proof. exact history_ok_nth. Qed.
+Print Assumptions C14_history_judge_sound.
+
+(* proposals are identified by (source domain, deposit nonce), printed as one number: injective *)
+Theorem C14_pk_inj : forall s n s' n', n < two64 -> n' < two64 -> pk s n = pk s' n' -> s = s' /\ n = n'.
+Proof. exact pk_inj. Qed.
+Print Assumptions C14_pk_inj.
+
+(* Non-vacuity: source 1 / nonce 23 found executed in the first delivery; the second delivery - not in
+   ascending nonce order - holds source 12 / nonce 3 pending: batched, in the delivery's order; the judge
+   rejects leaving it out and rejects batches in nonce order. *)
+Example C14_history_nonvacuous :
+  map (option_map (map obs_of)) (run_history 1000 100 w_hist)
+    = [Some [([pk 1 24], 100)]; Some [([pk 12 4; pk 12 3], 240)]] /\
+  history_ok 1000 100 w_hist [Some [([pk 1 24], 100)]; Some [([pk 12 4], 100)]] = false /\
+  history_ok 1000 100 w_hist [Some [([pk 1 24], 100)]; Some [([pk 12 3; pk 12 4], 240)]] = false /\
+  pk 1 23 <> pk 12 3.
+Proof. vm_compute. repeat split; discriminate. Qed.
+
 (* ---- the code as it was (before fix-C14) ---- *)
 
 (* gas mis-attributed at roll-over: without any overflow a non-empty batch is submitted with gas
